@@ -90,12 +90,18 @@ func TestVerifE7Prog(t *testing.T) {
 		{nsqds: []string{"N0", "N1"}, down: map[string]bool{"N0": true, "N1": true}},
 		{nsqds: []string{"N2"}, noTopic: map[string]bool{"N2": true}},
 		{nsqds: []string{"N1", "N0"}, down: map[string]bool{"N0": true}, postFail: map[string]int{"N1": 2}},
+		// /info claims somebody else's address (audit C16)
+		{lookupds: []string{"L0", "L1"}, prods: prods, reports: map[string]string{"N0": "N1", "N1": "X0"}},
+		{nsqds: []string{"N0", "N1", "N2"}, reports: map[string]string{"N0": "N2"}},
+		{nsqds: []string{"N0", "N1", "N2"}, reports: map[string]string{"N0": "N1", "N2": "N1"}, postFail: map[string]int{"N1": 1}},
+		{nsqds: []string{"N0", "N1"}, reports: map[string]string{"N0": "X0", "N1": "X0"}},
 	}
 	// random worlds: every stub independently up / down / POST-failing, random producer reports
 	n := vfEnvInt("VERIF_N", 40)
 	syms := []string{"N0", "N1", "N2", "X0"}
 	for i := 0; i < n; i++ {
-		w := vfE7World{down: map[string]bool{}, noTopic: map[string]bool{}, prods: map[string][]string{}, postFail: map[string]int{}}
+		w := vfE7World{down: map[string]bool{}, noTopic: map[string]bool{}, prods: map[string][]string{}, postFail: map[string]int{},
+			reports: map[string]string{}}
 		if rng.Intn(3) > 0 {
 			for _, l := range []string{"L0", "L1"} {
 				if rng.Intn(4) > 0 {
@@ -129,13 +135,16 @@ func TestVerifE7Prog(t *testing.T) {
 			if s[0] == 'N' && rng.Intn(5) == 0 {
 				w.noTopic[s] = true
 			}
+			if s[0] == 'N' && rng.Intn(4) == 0 {
+				w.reports[s] = syms[rng.Intn(len(syms))]
+			}
 		}
 		worlds = append(worlds, w)
 	}
 	kinds := []string{"createTopic", "createChannel", "deleteTopic", "deleteChannel", "pauseTopic", "unpauseTopic", "emptyTopic",
 		"pauseChannel", "unpauseChannel", "emptyChannel", "tombstone"}
-	topics := []string{"t1", "orders.v2", "t#ephemeral"}
-	chans := []string{"c1", "c#ephemeral", "x.y"}
+	topics := []string{"t1", "orders.v2", "t#ephemeral", "a&channel=b c%+d", "ü/x?"}
+	chans := []string{"c1", "c#ephemeral", "x.y", "c&d=e"}
 	hist := map[string]int{}
 	maxErrs := 0
 	for _, w := range worlds {
